@@ -3,7 +3,7 @@ from .. import charset, panics
 from ..callgraph import norm
 from ..common import callgraph, div_by_nonzero_const, impl_methods, body_by_name, callee_names
 from ..facts import callee, op_const, op_local
-from ..scans import closure_of_local, found_rejects, only_err_returns, scan_of
+from ..scans import closure_of_local, found_rejects, only_err_returns, scan_of, with_scan_helpers
 
 CONFIGS_QUICK = ["K1", "K2"]
 CONFIGS_THOROUGH = ["K1", "K2"]
@@ -158,6 +158,7 @@ def parser_key_alphabet(prog, kv):
 def tag_valid_alphabet(prog, tf):
     """Tag::try_from: one character scan over the input (`find/position/any/all` with a closure, or a `for` loop) whose
     hit returns Err; valid alphabet = complement of the hit set.  Also reports the empty check."""
+    tf = with_scan_helpers(prog, tf)
     try:
         sc = scan_of(prog, tf)
     except charset.Opaque:
